@@ -75,3 +75,20 @@ def gen(out):
                       (r"CompareOp::Lt => zti\.min_ts < ts", "Lt test"), (r"CompareOp::Lte => zti\.min_ts <= ts", "Lte test")):
         if not re.search(pat, src):
             raise Missing(f"{rel}: {what}")
+    # --- field selector: what becomes of a pruner that has no answer (None)
+    rel = "src/engine/core/zone/selector/field_selector.rs"
+    src = read(rel)
+    m = re.search(r"IndexStrategy::TemporalEq \{ \.\. \} \| IndexStrategy::TemporalRange \{ \.\. \} => \{\s*"
+                  r"if let Some\(z\) = self\.temporal_pruner\.apply_temporal_only\(&args\) \{\s*candidate_zones = z;\s*\}(.*?)"
+                  r"else \{\s*return Vec::new\(\);\s*\}", src, re.S)
+    if not m:
+        raise Missing(f"{rel}: temporal arm of select_for_segment")
+    mid = re.sub(r"//[^\n]*", "", m.group(1)).strip()
+    if mid == "":
+        neq_all = False
+    elif re.fullmatch(r"else if matches!\(operation, Some\(CompareOp::Neq\) \| Some\(CompareOp::In\)\) \{\s*candidate_zones =\s*"
+                      r"collect_zones_for_scope\(self\.qplan, self\.caches, segment_id, Some\(uid\)\);\s*\}", mid, re.S):
+        neq_all = True
+    else:
+        raise Missing(f"{rel}: unrecognised fall-back in the temporal arm: {mid!r}")
+    out.append(f"Definition tsite_selector_neq_all_zones : bool := {'true' if neq_all else 'false'}.")
